@@ -4,7 +4,7 @@
     [table_ok], [cfg_ok], [order_ok], [entflags_ok], ... which checks/c16.py discharges on every run
     (instance obligations, vm_compute).  The FGD grammar itself is not modelled (search only). *)
 From Coq Require Import List NArith Arith Bool String.
-From SV Require Import Fmt.LongString Fmt.LongStringProofs Fmt.FgdBin Fmt.FgdBinProofs SM.LazyDb SM.LazyDbProofs.
+From SV Require Import Fmt.LongString Fmt.LongStringProofs Fmt.FgdBin Fmt.FgdBinProofs SM.LazyDb SM.LazyDbProofs SM.LazyDbMulti SM.LazyDbMultiProofs.
 From SV Require Import Fmt.FgdBinEnt Fmt.FgdBinEntProofs Fmt.FgdLine Fmt.FgdLineProofs Fmt.FgdLineTextProofs Fmt.FgdBody Fmt.FgdBodyProofs.
 From SV Require Import Gen.FgdConsts_gen.
 Import ListNotations.
@@ -520,3 +520,118 @@ Theorem c16_base_lookups_terminate :
   forall (via : bool) (B : list (block name bytes)) f qs, (List.length B <= f)%nat ->
   oof _ _ _ (snd (run_queries name ent bytes name_eqb decode ent_bases is_empty empty_bytes via f (init name ent bytes B) qs)) = false.
 Proof. exact base_lookups_terminate. Qed.
+
+(** * Several databases (add_engine_database): EntityDef.engine_def vs FGD.engine_dbase  (round 3)
+    [Bs] = the list of files in the order of `_ENGINE_DB` (an added database comes first); every file is well formed as in the
+    single-database theorems ([file_ok]: no class name twice inside one file, every block has data) — the SAME class name in
+    two files is exactly the case of interest.  [engine_dbase_merge] (Gen) is the shape of the merge loop of FGD.engine_dbase
+    read from the source: [FirstWins] = a class name that is already present is kept, [LastWins] = it is overwritten. *)
+Definition merge_is_first (m : merge_mode) : bool := match m with FirstWins => true | LastWins => false end.
+Definition multi_modes_agree : bool := merge_is_first engine_dbase_merge && engine_def_returns_first_hit.
+
+(** one at a time (first database that knows the class), in any order and with any repetitions, on a fresh list of databases
+    = the merged whole database, answers including what every stored base name was replaced by *)
+Theorem c16_multi_lazy_equals_eager :
+  forall (name ent bytes : Type) (name_eqb : name -> name -> bool),
+  (forall a b, name_eqb a b = true <-> a = b) ->
+  forall (decode : list name -> bytes -> list ent),
+  (forall cs data, List.length (decode cs data) = List.length cs) ->
+  forall (ent_bases : ent -> list name) (is_empty : bytes -> bool) (empty_bytes : bytes),
+  is_empty empty_bytes = true ->
+  forall (via : bool), via = true ->
+  forall (f g : nat) (Bs : list (list (block name bytes))) (qs : list name),
+  Forall (file_ok name bytes is_empty) Bs ->
+  Forall (fun B => (List.length B <= f)%nat) Bs -> Forall (fun B => (List.length B <= g)%nat) Bs ->
+  fst (run_defs name ent bytes name_eqb decode ent_bases is_empty empty_bytes via f (map (init name ent bytes) Bs) qs)
+  = map (engine_dbase name ent bytes name_eqb decode ent_bases is_empty empty_bytes via FirstWins g Bs) qs.
+Proof. exact multi_lazy_equals_eager. Qed.
+
+(** and that common answer is the content of the FIRST file that defines the class (an added database overrides) *)
+Theorem c16_multi_eager_is_first_file :
+  forall (name ent bytes : Type) (name_eqb : name -> name -> bool),
+  (forall a b, name_eqb a b = true <-> a = b) ->
+  forall (decode : list name -> bytes -> list ent),
+  (forall cs data, List.length (decode cs data) = List.length cs) ->
+  forall (ent_bases : ent -> list name) (is_empty : bytes -> bool) (empty_bytes : bytes),
+  is_empty empty_bytes = true ->
+  forall (via : bool), via = true ->
+  forall (g : nat) (Bs : list (list (block name bytes))) (c : name),
+  Forall (file_ok name bytes is_empty) Bs -> Forall (fun B => (List.length B <= g)%nat) Bs ->
+  engine_dbase name ent bytes name_eqb decode ent_bases is_empty empty_bytes via FirstWins g Bs c
+  = multi_spec name ent bytes name_eqb decode ent_bases Bs c.
+Proof. exact engine_dbase_first. Qed.
+
+(** the overwriting merge (dict.update) answers with the LAST file that defines the class ... *)
+Theorem c16_multi_overwrite_is_last_file :
+  forall (name ent bytes : Type) (name_eqb : name -> name -> bool),
+  (forall a b, name_eqb a b = true <-> a = b) ->
+  forall (decode : list name -> bytes -> list ent),
+  (forall cs data, List.length (decode cs data) = List.length cs) ->
+  forall (ent_bases : ent -> list name) (is_empty : bytes -> bool) (empty_bytes : bytes),
+  is_empty empty_bytes = true ->
+  forall (via : bool), via = true ->
+  forall (g : nat) (Bs : list (list (block name bytes))) (c : name),
+  Forall (file_ok name bytes is_empty) Bs -> Forall (fun B => (List.length B <= g)%nat) Bs ->
+  engine_dbase name ent bytes name_eqb decode ent_bases is_empty empty_bytes via LastWins g Bs c
+  = multi_spec_last name ent bytes name_eqb decode ent_bases Bs c.
+Proof. exact engine_dbase_last. Qed.
+
+(** ... so with it the look-up and the whole database disagree on EVERY class whose first and last definitions differ *)
+Theorem c16_multi_overwrite_refuted :
+  forall (name ent bytes : Type) (name_eqb : name -> name -> bool),
+  (forall a b, name_eqb a b = true <-> a = b) ->
+  forall (decode : list name -> bytes -> list ent),
+  (forall cs data, List.length (decode cs data) = List.length cs) ->
+  forall (ent_bases : ent -> list name) (is_empty : bytes -> bool) (empty_bytes : bytes),
+  is_empty empty_bytes = true ->
+  forall (via : bool), via = true ->
+  forall (f g : nat) (Bs : list (list (block name bytes))) (c : name),
+  Forall (file_ok name bytes is_empty) Bs ->
+  Forall (fun B => (List.length B <= f)%nat) Bs -> Forall (fun B => (List.length B <= g)%nat) Bs ->
+  multi_spec name ent bytes name_eqb decode ent_bases Bs c <> multi_spec_last name ent bytes name_eqb decode ent_bases Bs c ->
+  fst (run_defs name ent bytes name_eqb decode ent_bases is_empty empty_bytes via f (map (init name ent bytes) Bs) [c])
+  <> [engine_dbase name ent bytes name_eqb decode ent_bases is_empty empty_bytes via LastWins g Bs c].
+Proof. exact multi_overwrite_differs. Qed.
+
+(** the shortcut `if len(databases) == 1: return databases[0].get_fgd()` is the merge of one database, whatever the merge does *)
+Theorem c16_engine_dbase_single_shortcut :
+  forall (name ent bytes : Type) (name_eqb : name -> name -> bool),
+  (forall a b, name_eqb a b = true <-> a = b) ->
+  forall (decode : list name -> bytes -> list ent),
+  (forall cs data, List.length (decode cs data) = List.length cs) ->
+  forall (ent_bases : ent -> list name) (is_empty : bytes -> bool) (empty_bytes : bytes),
+  is_empty empty_bytes = true ->
+  forall (via : bool), via = true ->
+  forall (mode : merge_mode) (g : nat) (B : list (block name bytes)) (c : name),
+  file_ok name bytes is_empty B -> (List.length B <= g)%nat ->
+  engine_dbase name ent bytes name_eqb decode ent_bases is_empty empty_bytes via mode g [B] c
+  = engine_dbase_single name ent bytes name_eqb decode ent_bases is_empty empty_bytes via g B c.
+Proof. exact engine_dbase_one. Qed.
+
+(** Non-vacuity and refutation on two concrete files: the added file (first) redefines class 2 and adds class 5 (an alias of 2,
+    resolved INSIDE the added file); the bundled file is [xb_file] with data 10.. .  Definitions are (class, stored bases) and
+    carry the block data in the class component (class + 100 * data) so that the two definitions of class 2 differ. *)
+Definition mb_ent : Type := (N * list N)%type.
+Definition mb_bases (c : N) : list N := match c with 1 => [2] | 2 => [3] | 5 => [2] | _ => [] end.
+Definition mb_decode (cs : list N) (data : N) : list mb_ent := map (fun c => (c + 100 * data, mb_bases c)) cs.
+Definition mb_added : list (block N N) := [([2; 3], 7); ([5], 8)].
+Definition mb_files : list (list (block N N)) := [mb_added; xb_file].
+Definition mb_lazy (qs : list N) : list (option (mb_ent * list (option mb_ent))) :=
+  fst (run_defs N mb_ent N N.eqb mb_decode (fun e => snd e) (N.eqb 0) 0 true 3 (map (init N mb_ent N) mb_files) qs).
+Definition mb_eager (m : merge_mode) (c : N) : option (mb_ent * list (option mb_ent)) :=
+  engine_dbase N mb_ent N N.eqb mb_decode (fun e => snd e) (N.eqb 0) 0 true m 3 mb_files c.
+Example c16_multi_example :
+  mb_lazy [2; 1; 5; 4; 9] = map (mb_eager FirstWins) [2; 1; 5; 4; 9]
+  /\ mb_lazy [2] = [Some ((702, [3]), [Some (703, [])])]                       (* the added definition, bases from the added file *)
+  /\ mb_lazy [1] = [Some ((1001, [2]), [Some (1102, [3])])]                    (* class 1 exists only in the bundled file: its base is the bundled class 2 *)
+  /\ mb_eager LastWins 2 = Some ((1102, [3]), [Some (1203, [])])               (* overwritten by the bundled definition *)
+  /\ Forall (file_ok N N (N.eqb 0)) mb_files.
+Proof.
+  repeat split; try (vm_compute; reflexivity).
+  repeat constructor; cbn; intuition discriminate.
+Qed.
+Definition overwrite_merge_breaks : bool :=
+  match mb_lazy [2], mb_eager LastWins 2, mb_eager FirstWins 2 with
+  | [Some ((a, _), _)], Some ((b, _), _), Some ((c, _), _) => negb (a =? b) && (a =? c)
+  | _, _, _ => false
+  end.
